@@ -106,6 +106,92 @@ def execute(mod, case, stats: Stats):
     return None
 
 
+def execute_forked(mod, case):
+    """Run one case in a child forked from this process (whose library state is never touched), so that candidate
+    executions cannot pollute each other through process-global state. Returns (result, case-as-filled-in)."""
+    r, w = os.pipe()
+    pid = os.fork()
+    if pid == 0:
+        os.close(r)
+        try:
+            faulthandler.dump_traceback_later(300, exit=True)
+            res = execute(mod, case, Stats())
+            payload = json.dumps({"r": res, "case": case})
+        except BaseException as e:  # noqa: BLE001
+            payload = json.dumps({"err": repr(e)})
+        with os.fdopen(w, "wb") as f:
+            f.write(payload.encode())
+        os._exit(0)
+    os.close(w)
+    with os.fdopen(r, "rb") as f:
+        data = f.read()
+    os.waitpid(pid, 0)
+    if not data:
+        return ("error", "child died"), case
+    d = json.loads(data)
+    if "err" in d:
+        return ("error", d["err"]), case
+    res = d["r"]
+    if res is not None:
+        res = (res[0], res[1])
+    return res, d["case"]
+
+
+def fork_call(fn, *args):
+    """Call fn(*args) in a forked child and return its (picklable) result, or None if the child died."""
+    import pickle
+
+    r, w = os.pipe()
+    pid = os.fork()
+    if pid == 0:
+        os.close(r)
+        try:
+            payload = pickle.dumps(("ok", fn(*args)))
+        except BaseException as e:  # noqa: BLE001
+            payload = pickle.dumps(("err", repr(e) + "\n" + traceback.format_exc()))
+        with os.fdopen(w, "wb") as f:
+            f.write(payload)
+        os._exit(0)
+    os.close(w)
+    with os.fdopen(r, "rb") as f:
+        data = f.read()
+    os.waitpid(pid, 0)
+    if not data:
+        return None
+    tag, val = pickle.loads(data)
+    if tag == "err":
+        raise RuntimeError("forked call failed: " + val)
+    return val
+
+
+def _one_run(mod, prop, tier, rs, idx, want_digest, stats=None):
+    own = stats is None
+    if own:
+        stats = Stats(want_digest)
+    rng = random.Random(rs)
+    stats.begin_run()
+    case = mod.gen_case(rng, tier)
+    stats.log("case", json.dumps(case, sort_keys=True))
+    r = execute(mod, case, stats)
+    stats.count("runs")
+    violations = []
+    if r is None:
+        stats.count("runs_ok")
+        if len(stats.samples) < 2 and rng.random() < 0.2:
+            stats.samples.append(case)
+    elif r[0] == "discard":
+        stats.count("discard." + r[1])
+    else:
+        stats.count("runs_violating")
+        violations.append({"run_index": idx, "run_seed": rs, "case": case, "violation": r[1]})
+    stats.log("result", r)
+    d = stats.end_run()
+    out = {"violations": violations, "digests": {idx: d} if d is not None else {}}
+    if own:
+        out.update(c=stats.c, distinct=stats.distinct, distinct2=stats.distinct2, samples=stats.samples)
+    return out
+
+
 def _chunk(args):
     prop, tier, seed, start, n, want_digest, budget_deadline = args
     faulthandler.dump_traceback_later(600, exit=True)
@@ -115,28 +201,28 @@ def _chunk(args):
     violations = []
     digests = {}
     done = 0
+    fork_per_run = getattr(mod, "FORK_PER_RUN", False)
     for idx in range(start, start + n):
         rs = run_seed(seed, prop, idx)
-        rng = random.Random(rs)
-        stats.begin_run()
-        case = mod.gen_case(rng, tier)
-        stats.log("case", json.dumps(case, sort_keys=True))
-        r = execute(mod, case, stats)
-        stats.count("runs")
-        if r is None:
-            stats.count("runs_ok")
-            if len(stats.samples) < 2 and rng.random() < 0.2:
-                stats.samples.append(case)
-        elif r[0] == "discard":
-            stats.count("discard." + r[1])
-        else:
-            stats.count("runs_violating")
+        if fork_per_run:
+            # this worker never executes library code itself: every run happens in a forked child, so hidden
+            # process-global state in the library cannot leak from one run into the next
+            sub = fork_call(_one_run, mod, prop, tier, rs, idx, want_digest)
+            if sub is None:
+                raise RuntimeError(f"run {idx} died in its child process")
+            stats.c.update(sub["c"])
+            stats.distinct |= sub["distinct"]
+            stats.distinct2 |= sub["distinct2"]
+            if len(stats.samples) < 2:
+                stats.samples.extend(sub["samples"])
             if len(violations) < 3:
-                violations.append({"run_index": idx, "run_seed": rs, "case": case, "violation": r[1]})
-        stats.log("result", r)
-        d = stats.end_run()
-        if d is not None:
-            digests[idx] = d
+                violations.extend(sub["violations"])
+            digests.update(sub["digests"])
+        else:
+            sub = _one_run(mod, prop, tier, rs, idx, want_digest, stats)
+            if len(violations) < 3:
+                violations.extend(sub["violations"])
+            digests.update(sub["digests"])
         done += 1
     faulthandler.cancel_dump_traceback_later()
     return dict(c=stats.c, distinct=stats.distinct, distinct2=stats.distinct2, samples=stats.samples,
@@ -169,12 +255,9 @@ def shrink(mod, case, vinfo, max_exec=400, max_s=30.0):
             if execs >= max_exec or time.monotonic() - t0 > max_s:
                 break
             execs += 1
-            try:
-                r = execute(mod, cand, Stats())
-            except Exception:
-                continue
+            r, filled = execute_forked(mod, cand)
             if r is not None and r[0] == "violation" and class_key(r[1]) == key:
-                case, vinfo, improved = cand, r[1], True
+                case, vinfo, improved = filled, r[1], True
                 break
     return case, vinfo, execs
 
@@ -238,23 +321,9 @@ def run_check(prop: str, tier: str, seed: int) -> int:
     exit_code = 0
     printed = []
 
-    # 1. known findings / fixed regressions
     known = load_known(prop)
     known_open = [e for e in known if e["status"] == "known"]
     regression_runs = 0
-    for e in known:
-        if "case" not in e:
-            continue
-        r = execute(mod, e["case"], Stats())
-        regression_runs += 1
-        failing = r is not None and r[0] == "violation"
-        if e["status"] == "known":
-            if failing:
-                printed.append(f"KNOWN-FINDING: property={prop} {e['what']}")
-        elif failing:
-            path = write_replay(prop, seed, f"regression-{e['id']}", e["case"], r[1])
-            printed.append(f"VIOLATION property={prop} replay={path}")
-            exit_code = 1
 
     # 2. seeded search
     total = Counter()
@@ -304,6 +373,23 @@ def run_check(prop: str, tier: str, seed: int) -> int:
         print(f"HARNESS-ERROR property={prop} {harness_error}")
         return 2
 
+    # 1. known findings / fixed regressions
+    if hasattr(mod, "prepare"):
+        mod.prepare()
+    for e in known:
+        if "case" not in e:
+            continue
+        r, _ = execute_forked(mod, e["case"])
+        regression_runs += 1
+        failing = r is not None and r[0] == "violation"
+        if e["status"] == "known":
+            if failing:
+                printed.append(f"KNOWN-FINDING: property={prop} {e['what']}")
+        elif failing:
+            path = write_replay(prop, seed, f"regression-{e['id']}", e["case"], r[1])
+            printed.append(f"VIOLATION property={prop} replay={path}")
+            exit_code = 1
+
     # 3. violations: shrink, match against known findings, write replay, verify replay
     known_hits = 0
     seen_classes = set()
@@ -320,8 +406,11 @@ def run_check(prop: str, tier: str, seed: int) -> int:
         seen_classes.add(ck)
         path = write_replay(prop, seed, v["run_index"], case, vinfo)
         if not verify_replay_in_subprocess(prop, path):
-            print(f"HARNESS-ERROR property={prop} violation at run {v['run_index']} did not replay from {path}: {vinfo}")
-            return 2
+            # minimised case does not reproduce in a fresh interpreter: fall back to the case as found
+            path = write_replay(prop, seed, v["run_index"], v["case"], v["violation"], tag="-unminimised")
+            if not verify_replay_in_subprocess(prop, path):
+                print(f"HARNESS-ERROR property={prop} violation at run {v['run_index']} did not replay from {path}: {vinfo}")
+                return 2
         printed.append(f"VIOLATION property={prop} replay={path}")
         print(f"  violation class={ck} detail={vinfo.get('detail','')[:300]}")
         exit_code = 1
